@@ -38,9 +38,11 @@ var depRows = map[string]string{
 	"func-predicate":    "func tag: the method predicate is FuncName(tag value), or Or(FuncNameAndResult(tag value, r) for every returns argument)",
 	"no-error":          "candidate collection itself never fails or panics",
 	"independent":       "what a point is asked for and receives does not depend on the points of the same holder processed before it",
+	"unshared":          "two points of the same field type end up with candidate lists of their own, not with one list both hold",
 }
 
 type depRun struct {
+	firstTok *absint.Tok
 	queries  []string
 	byName   []string
 	assign   []string
@@ -75,12 +77,16 @@ func depProcessorTable(c *core.Ctx, p *procInfo) (rs rows, runs int, ownTags map
 	for _, tag := range tags {
 		for _, tagVal := range []string{"", "beanName"} {
 			for _, sh := range fieldShapes {
-				for _, returns := range []int{0, 2, -2, -3} { // negative: the same point preceded by another point of the processor's own tag
+				for _, returns := range []int{0, 2, -2, -3, -4} { // negative: the same point preceded by another point of the processor's own tag
 					if tag != "func" && returns > 0 {
 						continue
 					}
 					withFirst := returns < 0
 					firstNamedMissing := returns == -3 // the earlier point names a component that does not exist
+					sameType := returns == -4          // the earlier point has the very same field type (and no name)
+					if sameType && tagVal != "" {
+						continue
+					}
 					if withFirst {
 						returns = 2
 						if tag != "func" {
@@ -126,6 +132,10 @@ func depProcessorTable(c *core.Ctx, p *procInfo) (rs rows, runs int, ownTags map
 						pr0 := absint.NewTok("prop0", "property")
 						fld0, base0, ft0, args0 := absint.NewTok("prop0.Field", "field"), absint.NewTok("prop0.Field.Base", "base"), absint.NewTok("T0:first", "type"), absint.NewTok("args0", "tagargs")
 						ft0.Attr["kind"] = absint.Int(22)
+						if sameType {
+							ft0 = ft
+						}
+						run.firstTok = pr0
 						pr0.Fields["Field"], fld0.Fields["Base"], base0.Fields["Type"] = fld0, base0, ft0
 						pr0.Fields["Tag"], pr0.Fields["TagVal"], pr0.Fields["TagStr"] = absint.Str(tag), absint.Str(""), absint.Str("${raw}")
 						if tag == "func" {
@@ -237,6 +247,23 @@ func depProcessorTable(c *core.Ctx, p *procInfo) (rs rows, runs int, ownTags map
 						return t, []absint.Value{self, props, absint.NewTok("component", "component"), absint.NewTok("componentName", "key")}, nil
 					}
 					check := func(ip *absint.Interp, out absint.Outcome) {
+						if sameType {
+							// what the second point receives is what it gets alone, and it is a list of its own: a list
+							// shared with the earlier point would be rewritten for both when one of them is narrowed in place
+							key := fmt.Sprintf("%s|%s|%s|%d|%v|%v", tag, tagVal, sh.name, returns, byNameFound, assignable)
+							got := absint.Show(run.propTok.Fields["Injects"])
+							rs.hit("independent")
+							if alone, ok := single[key]; ok && !strings.Contains(alone, "injects="+got+" =>") {
+								rs.fail("independent", fmt.Sprintf("tag=%s field=%s: processed alone: %s; after another point of the same field type it holds %s", tag, sh.name, alone, got))
+							}
+							l0, _ := run.firstTok.Fields["Injects"].(*absint.List)
+							l1, _ := run.propTok.Fields["Injects"].(*absint.List)
+							rs.hit("unshared")
+							if l0 != nil && l1 != nil && len(l1.Elems) > 0 && (l0 == l1 || (l0.Base != nil && l0.Base == l1.Base) || l0.Base == l1 || l1.Base == l0) {
+								rs.fail("unshared", fmt.Sprintf("tag=%s field=%s: two points of one field type hold the same candidate list (%s)", tag, sh.name, got))
+							}
+							return
+						}
 						if withFirst {
 							// differential: what concerns the second point is what the same point got when processed alone
 							var q []string
@@ -1065,7 +1092,7 @@ func c06(c *core.Ctx, r *core.Report) {
 		smallModelCheck(c, r, "C06.R1", cons, p.Props, 2)
 		rs.report(c, r, p.Props, func(row string) string {
 			switch row {
-			case "by-type-pointer", "by-type-interface", "unsupported-kind", "func-predicate", "no-error", "foreign-tag", "independent":
+			case "by-type-pointer", "by-type-interface", "unsupported-kind", "func-predicate", "no-error", "foreign-tag", "independent", "unshared":
 				return "C06.R1"
 			}
 			return ""
